@@ -22,7 +22,7 @@ COQ_CASE_TYPE = "case"
 COQ_RUN = "run_case"
 TABLE_CONSTRUCTS = ["viz_collect_defaults", "viz_size_base",
                     "viz_check_code", "viz_fixed_code", "viz_split_code", "viz_hex_center_code", "viz_mesh_code",
-                    "viz_layers_code", "viz_collect_code", "viz_scatter_code", "viz_altair_code"]
+                    "viz_layers_code", "viz_collect_code", "viz_scatter_code", "viz_altair_code", "viz_altair_enc_code"]
 RULE = ("histories = one space (SingleGrid, MultiGrid, HexSingleGrid, HexMultiGrid, OrthogonalMooreGrid, "
         "OrthogonalVonNeumannGrid, HexGrid, NetworkGrid, Network, legacy and experimental ContinuousSpace, VoronoiGrid; "
         "w,h <= 5) + a portrayal table over the keys size/color/marker/zorder (each optional, per agent kind) + "
@@ -1056,16 +1056,16 @@ def run_impl(case):
                 obs.append(o)
                 # the statement side: every agent shown with the colour / size ITS portrayal returned
                 flags = [[int((pt[k] if k < len(pt) else [None] * 4)[j] is not None) for j in (1, 0)] for (k, _, _) in shadow.values()]
-                if flags:
-                    anyc, anys = max(f[0] for f in flags), max(f[1] for f in flags)
+                anyc = max([f[0] for f in flags] or [0])
+                anys = max([f[1] for f in flags] or [0])
+                if [hc, hs] != [anyc, anys]:
                     uniform = all(f == flags[0] for f in flags)
-                    if uniform and [hc, hs] != flags[0]:
-                        fail("C20/altair/encoding/portrayed-keys-not-encoded", i,
-                             f"_draw_grid on {cls} with agents {shadow}, portrayal table {pt}: every agent portrays colour/size {flags[0]} but the chart encodes {[hc, hs]}")
-                    if not uniform and (hc < anyc or hs < anys):
-                        # model and theorem C20_altair_encoding_first_row_only_refuted: the encodings come from the first row only
-                        failures.append({"key": "candidate:C20/altair/encoding/later-agents-keys-not-encoded", "op": i,
-                                         "what": f"some agent portrays a colour/size ({[anyc, anys]}) but the chart encodes {[hc, hs]}: encodings are taken from the first agent"})
+                    key = ("C20/altair/encoding/later-agents-keys-not-encoded" if (not uniform and hc <= anyc and hs <= anys)
+                           else "C20/altair/encoding/portrayed-keys-not-encoded")
+                    fail(key, i,
+                         f"_draw_grid on {cls} with agents {shadow} (id: kind, address), portrayal table {pt}: some agent's portrayal returns "
+                         f"a colour / size: {[anyc, anys]}, but the chart has colour / size encodings {[hc, hs]} "
+                         "(an agent is not shown with the colour / size its portrayal returned)")
                 m = min(sp["w"], sp["h"])
                 if not hs and (sn, sd) != _size_frac(30000 / m ** 2):
                     fail("C20/altair/encoding/default-mark-size", i, f"default mark size {sn}/{sd} on a {sp['w']}x{sp['h']} space")
